@@ -81,6 +81,7 @@ class _H181(Hooks):
 
     def call(self, it, func, args, kwargs, node, env):
         if isinstance(func, BoundMethod) and func.closure.fn.name == 'probability_distribution':
+            self.dist_args = (args[0] if args else kwargs.get('code'), args[1] if len(args) > 1 else kwargs.get('error_rate'))
             return self.syms
         n = np_name(func)
         if n:
@@ -126,6 +127,11 @@ def _r181_182(ctx: Ctx) -> None:
             outs = guard('R18.1', mi, fn)(lambda: it.explore(thunk))
             ctx.need(len(outs) == 1 and outs[0].kind == 'return', 'R18.1', site,
                      f'expected one straight-line path for (x,z)={(x, z)}, got {outs}')
+            da = getattr(it.hooks, 'dist_args', None)
+            if (pauli, log_output) == ('I', False):
+                ctx.ob('R18.1', site, 'error_probability asks the channel for (code, error_rate) of its own arguments',
+                       da == (Sym('code'), Sym('p')), f'probability_distribution called with {da!r}; the arguments are '
+                                                      f'(code, error_rate)', key='BaseErrorModel.error_probability|dist-args')
             v_ = outs[0].value
             results[(pauli, log_output)] = v_.value if isinstance(v_, _Buf) else v_
 
@@ -153,6 +159,18 @@ def _r181_182(ctx: Ctx) -> None:
 
 
 # --------------------------------------------------------------------- R18.3
+
+class _Tst:
+    """Outcome of a test `p_P[e] <op> c` on this path (decided once, recorded in the trace)."""
+
+    def __init__(self, it, name, op, val):
+        self.it, self.name, self.op, self.val = it, name, op, val
+
+    def pqv_truth(self):
+        r = self.it.choose(2) == 0
+        self.it.trace.append(('cmp-out', self.name, self.op, self.val, r))
+        return r
+
 
 class _LogP:
     def __init__(self, which, model, code, rate, log_output):
@@ -205,7 +223,7 @@ class _H183(Hooks):
     def compare(self, it, op, a, b, node):
         if isinstance(a, Tagged) and a.tag == 'elem':
             it.trace.append(('cmp', node, a.args[0], type(op).__name__, b, a.args[1]))
-            return TOP
+            return _Tst(it, a.args[0].name, type(op).__name__, b)
         return NOT_HANDLED
 
     def store_subscript(self, it, obj, idx, value, node, env):
@@ -218,6 +236,8 @@ class _H183(Hooks):
         if isinstance(func, BoundMethod):
             nm = func.closure.fn.name
             if nm == 'probability_distribution':
+                it.trace.append(('dist-args', args[0] if args else kwargs.get('code'),
+                                 args[1] if len(args) > 1 else kwargs.get('error_rate')))
                 return tuple(Sym('p' + self.events[p].name[1:]) if False else Sym('pp' + p.lower())
                              for p in PAULIS)
             if nm == 'error_probability':
@@ -363,6 +383,11 @@ def _r183(ctx: Ctx) -> None:
     ctx.ob('R18.3', site, 'get_next_error: Metropolis acceptance exp(min(0, logP(new)-logP(old)))',
            ok_b, detail_b, key='SplittingSimulation.get_next_error|accept', facts=fact_b)
 
+    das = {(repr(t[1]), repr(t[2])) for o in rets for t in o.trace if t[0] == 'dist-args'}
+    ctx.ob('R18.3', site, 'get_next_error: proposal probabilities come from the channel of (self.code, error_rate)',
+           das == {(repr(Sym('code')), repr(Sym('rate')))}, f'probability_distribution called with {sorted(das)}',
+           key='SplittingSimulation.get_next_error|dist-args')
+
     # (d) what is returned is (error, log-likelihood OF THAT error) on every path: the caller records the number and
     # may hand it back as the likelihood of the current error
     ok_d, detail_d, pairs = True, '', set()
@@ -419,6 +444,14 @@ def _r183(ctx: Ctx) -> None:
             if any(s[1] not in (idx, idx_z) or s[2] != 1 for s in stores):
                 ok_c, detail_c = False, f'unexpected store into the proposal vector: {stores!r}'
             pats.add((int(xs), int(zs)))
+        # offered = exactly the Paulis whose probability was found non-zero on these paths, each once
+        for stores, tested, o in lst:
+            nonzero = [p for p in 'XYZ' if any(t[0] == 'cmp-out' and t[1] == 'pp' + p.lower() and
+                                                ((t[2], t[3], t[4]) in (('NotEq', 0, True), ('Eq', 0, False), ('Gt', 0, True)))
+                                                for t in o.trace)]
+            if sorted(offered) != sorted(nonzero):
+                ok_c, detail_c = False, (f'on the path where exactly {nonzero} have non-zero probability the proposal offers '
+                                         f'{list(offered)}')
         want = {BITS[p] for p in offered}
         facts_c[''.join(offered)] = sorted(pats)
         if offered:
